@@ -165,7 +165,7 @@ struct C03 : Scenario {
    }
 
    // prologue: deterministic boundary sweeps
-   size_t prologue_count(int) const override { return 12; }
+   size_t prologue_count(int) const override { return 16; }
    Plan prologue(size_t i, int) const override
    {
       Plan p;
@@ -188,8 +188,11 @@ struct C03 : Scenario {
          for (int m = 1; m <= 10; ++m) for (int d = -2; d <= 2; ++d) intern(WGranule, m, d + 2, (m + d) % 2);
          break;
       case 6: case 7:   // over-size threshold and pool capacity
-         for (int k = 0; k < 6; ++k) intern(WHuge, k, 7 + k);
-         for (int k = 0; k < 6; ++k) intern(WHuge, k, 7 + k);        // repeats must hit
+         for (int k = 0; k < 8; ++k) intern(WHuge, k + 8 * 9, 7 + k);
+         for (int k = 0; k < 8; ++k) intern(WHuge, k + 8 * 9, 7 + k);        // repeats must hit
+         break;
+      case 12: case 13: case 14: case 15:   // every length within 9 bytes of one capacity boundary, each in a pool of its own history
+         for (int d = 0; d < 19; ++d) intern(WHuge, int64_t(i - 12) + 8 * d, 3 + d);
          break;
       case 8: case 9: { // exact fill, then one more header
          Op f; f.code = OpFill; f.a[0] = 0; f.a[1] = 0; p.ops.push_back(f);
@@ -246,7 +249,7 @@ struct C03 : Scenario {
             case WGranule: o.a[2] = int64_t(r.range(1, 12)); o.a[3] = int64_t(r.below(5)); break;
             case WReserved: o.a[2] = int64_t(r.below(64)); break;
             case WNearMiss: o.a[2] = int64_t(r.below(64)); o.a[3] = int64_t(r.below(8)); break;
-            case WHuge: o.a[2] = int64_t(r.below(8)); o.a[3] = int64_t(r.below(4)); break;
+            case WHuge: o.a[2] = int64_t(r.below(8 * 19)); o.a[3] = int64_t(r.below(4)); break;
             case WRepeat: o.a[2] = int64_t(r.below(64)); break;
             case WNeighbour: o.a[2] = int64_t(r.below(64)); o.a[3] = int64_t(r.below(256)); break;
             case WCollide: o.a[2] = int64_t(16 + r.below(40)); o.a[3] = int64_t(r.below(1000)); break;
@@ -301,8 +304,12 @@ struct C03 : Scenario {
          return w;
       }
       case WHuge: {
-         static const long sizes[] = { 65519, 65535, 65536, 65537, 65553, 1048560, 1048577, 2621440 };
-         long n = sizes[uint64_t(o.a[2]) % 8];
+         // around every capacity boundary, byte by byte: the over-size threshold (65536), a pool's capacity in characters
+         // (65536 headers of 16 bytes less the 8-byte length field) and the megabyte itself; a2 = base + 8 * offset
+         static const long bases[] = { 65536 - 8, 65536, 1048576 - 8, 1048576, 65519, 2621440, 70001, 300007 };
+         const uint64_t a2 = uint64_t(o.a[2]);
+         long n = bases[a2 % 8];
+         if (a2 % 8 < 4) n += long((a2 / 8) % 19) - 9;
          // deterministic cheap content: varies with a3
          std::string w(size_t(n), char('A' + uint64_t(o.a[3]) % 26));
          for (size_t i = 0; i < w.size(); i += 4093) w[i] = char(i / 4093 + uint64_t(o.a[3]));
